@@ -15,6 +15,8 @@ EXPLANATION = (
     " R07-len-estimator: BloomFilter::len() is -(m/k)*ln(1 - x/m) (compared as an exact rational function over m, k, x and the ln atom)."
     " R07-double-hashing: iter_for reduces both base hashes (IV 0 and 1) modulo m, next() yields (h1 + i*h2 + f(i)) mod m, f has k entries modulo m. The cuckoo `accepts n inserts without Full` clause presupposes relocation to the alternate bucket: C01's kick-loop typestate rule is applied. The quotient filter's bound presupposes a lookup confined to the run of its quotient and an exact q+r-bit split: C13's R13-scan / R13-split rules are applied."
 )
+from .common import NEW_WRITERS_NOTE as _NWN
+EXPLANATION = EXPLANATION + _NWN % "07"
 NOT_DECIDED = "every frequency statement (false-positive rates, len() accuracy, cuckoo load without Full): distributions over hashers and keys"
 ASSUMPTIONS = ["real-number semantics for f64 (rounding ignored)", "`x as usize` truncates and saturates"]
 
@@ -23,6 +25,8 @@ CF = "filters::cuckoofilter::CuckooFilter"
 
 
 def run(ctx):
+    from .common import check_new_writers
+    check_new_writers(ctx, "R07-new-writers", ['filters::bloomfilter::BloomFilter', 'filters::cuckoofilter::CuckooFilter', 'filters::quotientfilter::QuotientFilter'])
     prog = ctx.prog
     # ---- Bloom ------------------------------------------------------------------------------
     f = ctx.anchor(BLOOM + "::with_properties_and_hash")
